@@ -27,7 +27,7 @@ func genC18(t *rapid.T) RoutingCase {
 	c := RoutingCase{Via: harness.ViaDispatch}
 	c.Table = gen.Table(t, cfg)
 	c.Reqs = genRequests(t, c.Table, cfg, 1, 12)
-	if !tableHasMuxConflict(c.Table) && rapid.Bool().Draw(t, "viaServe") {
+	if rapid.Bool().Draw(t, "viaServe") { // roots may share their fixed prefix: the container registers each mux pattern once
 		c.Via = harness.ViaServe
 	}
 	return c
